@@ -137,6 +137,10 @@ func (t *c15Tree) files() map[string]string {
 			}
 			if f.HasInit {
 				fmt.Fprintf(&b, "func init() {\n\tprintln(\"RUN\", %q, %q, \"init\"%s)\n}\n", p.Path, f.Name, args)
+				if (fi+len(p.Path))%2 == 0 {
+					// a METHOD named init is an ordinary method: nothing calls it
+					fmt.Fprintf(&b, "\ntype K%d struct {\n\tn int\n}\n\nfunc (k *K%d) init(d int) int {\n\tprintln(\"RUN\", %q, %q, \"method-init\")\n\treturn d\n}\n", fi, fi, p.Path, f.Name)
+				}
 			}
 			out[p.Dir+"/"+f.Name] = b.String()
 		}
@@ -374,7 +378,19 @@ func checkC15(c *Ctx) {
 		case 1: // conflicting package clauses in one (reachable or not) package
 			k := r.Intn(n)
 			p := t.pkg(paths[k])
-			p.Files = append(p.Files, c15File{Name: "zz_conflict.go", Clause: "conflict", HasInit: false})
+			// the file with the other clause is the last, the first or a middle one of the directory
+			cf := c15File{Name: "zz_conflict.go", Clause: "conflict", HasInit: false}
+			switch r.Intn(3) {
+			case 0:
+				p.Files = append(p.Files, cf)
+			case 1:
+				cf.Name = "0_conflict.go"
+				p.Files = append([]c15File{cf}, p.Files...)
+			default:
+				cf.Name = "b0_conflict.go"
+				p.Files = append(p.Files, cf)
+				sort.Slice(p.Files, func(i, j int) bool { return p.Files[i].Name < p.Files[j].Name })
+			}
 		}
 		c15Finalize(t)
 		add(t, fmt.Sprintf("rand/%d", i))
